@@ -124,7 +124,8 @@ def run(ctx):
              {"env": "busy", "execmodel": "thread", "topo": "socket"}, {"env": "receive", "execmodel": "gevent", "topo": "popen"},
              {"env": "sleep", "execmodel": "gevent", "topo": "popen"}, {"env": "busy", "execmodel": "gevent", "topo": "popen"},
              {"env": "nondaemon", "execmodel": "thread", "topo": "popen"}, {"env": "atexit_hang", "execmodel": "thread", "topo": "popen"},
-             {"env": "flooded", "execmodel": "thread", "topo": "popen"}, {"env": "flooded", "execmodel": "main_thread_only", "topo": "python"}]
+             {"env": "flooded", "execmodel": "thread", "topo": "popen"}, {"env": "flooded", "execmodel": "main_thread_only", "topo": "python"},
+             {"env": "sleep_and_sending", "execmodel": "thread", "topo": "popen"}, {"env": "sleep_and_short", "execmodel": "thread", "topo": "popen"}]
     plans = [(base, "sigkill")]
     second = [dict(s) for s in rng.sample(base[:13], 6)]
     plans.append((second, "close"))
